@@ -213,6 +213,8 @@ impl Bdd {
 
     /// Restrict the value of a given [variable][crate::datatypes::Var] to **val**.
     pub fn restrict(&mut self, tree: Term, var: Var, val: bool) -> Term {
+        #[cfg(adf_obdd_verif)]
+        let _verif_depth = crate::verif::enter();
         if let Some(result) = self.restrict_cache.get(&(tree, var, val)) {
             *result
         } else {
@@ -249,6 +251,8 @@ impl Bdd {
 
     /// Creates an roBDD, based on the relation of three roBDDs, which are in an `if-then-else` relation.
     fn if_then_else(&mut self, i: Term, t: Term, e: Term) -> Term {
+        #[cfg(adf_obdd_verif)]
+        let _verif_depth = crate::verif::enter();
         if i == Term::TOP {
             t
         } else if i == Term::BOT {
@@ -429,6 +433,8 @@ impl Bdd {
     #[allow(dead_code)] // dead code due to more efficient ad-hoc building, still used for a couple of tests
     /// Computes the number of counter-models, models, and variables for a given roBDD
     fn modelcount_naive(&self, term: Term) -> CountNode {
+        #[cfg(adf_obdd_verif)]
+        let _verif_depth = crate::verif::enter();
         if term == Term::TOP {
             (ModelCounts::top(), ModelCounts::top(), 0)
         } else if term == Term::BOT {
@@ -461,6 +467,8 @@ impl Bdd {
     }
 
     fn modelcount_memoization(&self, term: Term) -> CountNode {
+        #[cfg(adf_obdd_verif)]
+        let _verif_depth = crate::verif::enter();
         if term == Term::TOP {
             (ModelCounts::top(), ModelCounts::top(), 0)
         } else if term == Term::BOT {
